@@ -5,7 +5,7 @@ import ast
 from ..astutil import attr_chain, const_number
 from ..interp import Interp, OBJ, E, all_ann
 from ..entries import param_value
-from ..model import AnalysisIncomplete, PARAM, BUFFER, norm_text
+from ..model import AnalysisIncomplete, PARAM, BUFFER, norm_text, stmt_of
 from ..report import Finding, RuleResult
 from ..taint import TaintDomain
 from ..typestate import StoreExec, Hooks, UNK, explore, freeze, trace_to
@@ -518,9 +518,190 @@ def _show(poly):
     return " + ".join("%g*%s" % (v, "*".join(k) if k else "1") for k, v in sorted(poly.items())) or "0"
 
 
+# ---------------------------------------------------------------------------------------
+# NORM-LOAD: what a state-dict load does to the life-cycle state
+# ---------------------------------------------------------------------------------------
+
+LOAD_METHODS = ("_load_from_state_dict", "load_state_dict", "__setstate__")
+HOOK_REGISTRARS = ("_register_load_state_dict_pre_hook", "register_load_state_dict_post_hook", "register_load_state_dict_pre_hook")
+DICT_MUTATORS = ("update", "pop", "popitem", "setdefault", "clear", "__setitem__", "__delitem__")
+
+
+def _key_suffix(e):
+    """the constant tail of a state-dict key expression: prefix + "initialized", f"{prefix}initialized",
+    "%sinitialized" % prefix, "initialized" -> "initialized"; None when the tail is not a constant"""
+    if isinstance(e, ast.Constant) and isinstance(e.value, str):
+        return e.value
+    if isinstance(e, ast.BinOp) and isinstance(e.op, ast.Add):
+        return _key_suffix(e.right)
+    if isinstance(e, ast.BinOp) and isinstance(e.op, ast.Mod) and isinstance(e.left, ast.Constant) and isinstance(e.left.value, str):
+        t = e.left.value
+        i = max(t.rfind("%s"), t.rfind("%r"))
+        return t[i + 2 :] if i >= 0 else t
+    if isinstance(e, ast.JoinedStr) and e.values:
+        last = e.values[-1]
+        return last.value if isinstance(last, ast.Constant) and isinstance(last.value, str) else None
+    if isinstance(e, ast.Call) and isinstance(e.func, ast.Attribute) and e.func.attr == "format" and isinstance(e.func.value, ast.Constant) and isinstance(e.func.value.value, str):
+        t = e.func.value.value
+        i = t.rfind("}")
+        return t[i + 1 :] if i >= 0 else t
+    return None
+
+
+def _absent_guarded(node, sd, key_node, local_keys):
+    """is the store dominated by `if <key> not in <sd>` (a default for checkpoints that lack the key:
+    every state dict this code writes has it, DESIGN C15 PERS-*)?"""
+    want = norm_text(key_node)
+    cur = node
+    while getattr(cur, "_parent", None) is not None:
+        par = cur._parent
+        if isinstance(par, ast.If):
+            t = par.test
+            in_body = any(cur is s for s in par.body)
+            in_else = any(cur is s for s in par.orelse)
+            if isinstance(t, ast.UnaryOp) and isinstance(t.op, ast.Not) and isinstance(t.operand, ast.Compare):
+                c = t.operand
+                if len(c.ops) == 1 and isinstance(c.ops[0], ast.In) and norm_text(c.comparators[0]) == sd and norm_text(c.left) == want and in_body:
+                    return True
+            if isinstance(t, ast.Compare) and len(t.ops) == 1 and norm_text(t.comparators[0]) == sd and norm_text(t.left) == want:
+                if isinstance(t.ops[0], ast.NotIn) and in_body:
+                    return True
+                if isinstance(t.ops[0], ast.In) and in_else:
+                    return True
+        cur = par
+    return False
+
+
+def _load_hook_findings(p, cls, names, res, rule="NORM-LOAD"):
+    """`names`: the parameters / persistent buffers whose saved values a load must bring back."""
+    hooks = []
+    for c in cls.repo_mro():
+        for m in LOAD_METHODS:
+            fi = c.methods.get(m)
+            if fi is not None and all(fi is not h[0] for h in hooks):
+                if cls.lookup_method(m) is fi:
+                    hooks.append((fi, m))
+        for fi in c.methods.values():
+            for n in ast.walk(fi.node):
+                if isinstance(n, ast.Call) and isinstance(n.func, ast.Attribute) and n.func.attr in HOOK_REGISTRARS:
+                    tgt = n.args[0] if n.args else None
+                    ch = attr_chain(tgt) if tgt is not None else None
+                    hf = cls.lookup_method(ch[5:]) if ch and ch.startswith("self.") and ch.count(".") == 1 else None
+                    if hf is None:
+                        res.undecided.append("%s.%s registers a state-dict load hook `%s` that is not a method of the class" % (c.name, fi.name, norm_text(tgt) if tgt is not None else "?"))
+                    else:
+                        hooks.append((hf, n.func.attr))
+    for fi, kind in hooks:
+        fn = fi.node
+        params = [a.arg for a in fn.args.posonlyargs + fn.args.args]
+        if fi.node.args.vararg is not None and len(params) < 2:
+            sd = None
+        else:
+            # bound hook methods and overrides take self first; the mapping comes next
+            # (pre-hooks registered on the module: (state_dict, prefix, ...); post-hooks: (module, incompatible_keys))
+            sd = params[1] if len(params) > 1 else None
+        if kind == "register_load_state_dict_post_hook":
+            sd = None
+        label = "%s.%s" % (fi.cls.name if fi.cls is not None else "?", fi.name)
+        n_checked = 0
+        # (1) the mapping that is about to be loaded must keep the saved life-cycle entries
+        if sd is not None:
+            for n in ast.walk(fn):
+                key = None
+                how = None
+                if isinstance(n, (ast.Assign, ast.AugAssign, ast.AnnAssign, ast.Delete)):
+                    tgts = n.targets if isinstance(n, (ast.Assign, ast.Delete)) else [n.target]
+                    for t in tgts:
+                        if isinstance(t, ast.Subscript) and norm_text(t.value) == sd:
+                            key, how = t.slice, "del" if isinstance(n, ast.Delete) else "store"
+                        elif isinstance(t, ast.Name) and t.id == sd and not isinstance(n, ast.Delete):
+                            res.undecided.append("%s rebinds the mapping `%s` it is about to load" % (label, sd))
+                elif isinstance(n, ast.Call) and isinstance(n.func, ast.Attribute) and norm_text(n.func.value) == sd and n.func.attr in DICT_MUTATORS:
+                    how = "." + n.func.attr
+                    key = n.args[0] if n.args and n.func.attr in ("pop", "setdefault", "__setitem__", "__delitem__") else None
+                    if n.func.attr == "setdefault":
+                        n_checked += 1
+                        continue  # only fills an absent key
+                    if key is None:
+                        res.fail(Finding(rule, fi.module, fi.qualname, n, "%s rewrites the state dict being loaded (`%s`): the saved life-cycle state of %s (%s) is not what the layer resumes with" % (label, norm_text(n)[:70], cls.name, ", ".join(names))))
+                        continue
+                if how is None:
+                    continue
+                n_checked += 1
+                kexpr = key
+                if isinstance(key, ast.Name):
+                    defs = [a.value for a in ast.walk(fn) if isinstance(a, ast.Assign) and any(isinstance(t, ast.Name) and t.id == key.id for t in a.targets)]
+                    if len(defs) == 1:
+                        kexpr = defs[0]
+                suffix = _key_suffix(kexpr)
+                if suffix is None:
+                    res.undecided.append("%s changes entry `%s` of the state dict being loaded; cannot tell which" % (label, norm_text(key)))
+                    continue
+                tail = suffix.split(".")[-1]
+                if tail not in names:
+                    continue
+                if how == "store" and _absent_guarded(n, sd, key, None):
+                    continue
+                res.fail(Finding(rule, fi.module, fi.qualname, stmt_of(n) or n, "%s replaces the saved `%s` in the state dict being loaded (%s `%s`): after save + load the layer does not resume in the state it was saved in (e.g. a layer saved before its data-dependent initialisation claims to be initialised, or one saved after it initialises again)" % (label, tail, how, norm_text(n)[:80])))
+        # (2) the load must still happen: the overridden method is delegated to on every normal path
+        if kind in LOAD_METHODS:
+            delegates = [n for n in ast.walk(fn) if isinstance(n, ast.Call) and isinstance(n.func, ast.Attribute) and n.func.attr == kind and isinstance(n.func.value, ast.Call) and norm_text(n.func.value.func) == "super"]
+            if not delegates and kind != "__setstate__":
+                res.fail(Finding(rule, fi.module, fi.qualname, fn, "%s never delegates to super().%s: parameters and buffers (%s) are not restored by a load" % (label, kind, ", ".join(names))))
+            n_checked += 1
+        # (3) no write of the restored attributes by the hook itself (after the restore its value wins)
+        for n in ast.walk(fn):
+            tgt = None
+            if isinstance(n, (ast.Assign, ast.AugAssign)):
+                for t in n.targets if isinstance(n, ast.Assign) else [n.target]:
+                    base = t
+                    while isinstance(base, ast.Subscript):
+                        base = base.value
+                    ch = attr_chain(base) if isinstance(base, ast.Attribute) else None
+                    if ch and ch.startswith("self."):
+                        tgt = ch
+            elif isinstance(n, ast.Call) and isinstance(n.func, ast.Attribute) and n.func.attr.endswith("_") and not n.func.attr.startswith("_"):
+                base = n.func.value
+                while isinstance(base, ast.Subscript):
+                    base = base.value
+                ch = attr_chain(base) if isinstance(base, ast.Attribute) else None
+                if ch and ch.startswith("self."):
+                    tgt = ch
+            if tgt is None:
+                continue
+            parts = tgt.split(".")
+            if parts[1] in names:
+                res.fail(Finding(rule, fi.module, fi.qualname, n, "%s writes `%s` while a state dict is loaded: the restored life-cycle state of %s is overridden (`%s`)" % (label, tgt, cls.name, norm_text(n)[:80])))
+            n_checked += 1
+        for n in ast.walk(fn):
+            if isinstance(n, ast.Call) and isinstance(n.func, ast.Attribute) and isinstance(n.func.value, ast.Name) and n.func.value.id == "self" and cls.lookup_method(n.func.attr) is not None and n.func.attr not in LOAD_METHODS:
+                res.undecided.append("%s calls self.%s() during a load; its effect on the restored state is not analysed" % (label, n.func.attr))
+        res.ok("%s: load hook of %s keeps the saved %s (%d constructs checked)" % (label, cls.name, ", ".join(names), n_checked))
+    return hooks
+
+
+def load_rule(ctx):
+    p = ctx.p
+    res = RuleResult("NORM-LOAD", "a state-dict load brings back the saved life-cycle state: no load hook of a normalisation layer replaces the saved flag / statistics / parameters or skips the restore")
+    total = 0
+    for cname in ("ActNorm", "BatchNorm"):
+        cls = p.find_class(cname, "nflows.transforms.normalization")
+        if cls is None:
+            raise AnalysisIncomplete("class %s not found" % cname)
+        names = sorted(k for k, ai in p.attrs(cls).items() if _travels(ai))
+        if not names:
+            raise AnalysisIncomplete("%s has no parameter / persistent buffer" % cname)
+        hooks = _load_hook_findings(p, cls, names, res)
+        total += len(hooks)
+        if not hooks:
+            res.ok("%s defines no state-dict load hook: torch restores %s as saved (T-NN)" % (cname, ", ".join(names)))
+    res.notes.append("%d load hooks analysed" % total)
+    return res
+
+
 register(
     "C14",
-    [actnorm_rule, batchnorm_life_rule, batchnorm_flow_rule, momentum_rule],
+    [actnorm_rule, batchnorm_life_rule, batchnorm_flow_rule, momentum_rule, load_rule],
     "Typestate analysis of ActNorm (abstract store training x initialized x {default,data}^2 x init-count) and BatchNorm with "
     "transfer functions derived by executing the bodies of forward/inverse/train/_initialize found in /repo, under all sequences "
     "of train/eval/forward/inverse/save+load (save+load modelled from the attribute kinds: parameters and persistent buffers "
@@ -530,6 +711,9 @@ register(
     "effect. BatchNorm: buffers change only in training-mode forward, inverse raises InverseNotAvailable on every training-mode "
     "path; a taint analysis run once under the assumption self.training and once under its negation decides which statistics "
     "reach outputs/log-det and the buffer updates (batch statistic, detached); the update statements are normalised to a "
-    "polynomial in (old, stat, momentum) and compared with (1-m)*old + m*stat. Zero-mean/unit-variance numerics are not decided.",
+    "polynomial in (old, stat, momentum) and compared with (1-m)*old + m*stat. NORM-LOAD: a state-dict load hook of either class "
+    "(_load_from_state_dict / load_state_dict / __setstate__ overrides, registered pre/post hooks) neither replaces a saved "
+    "parameter / persistent-buffer entry (other than filling an absent key), nor skips the delegation to torch, nor writes the "
+    "restored attributes. Zero-mean/unit-variance numerics are not decided.",
     [T_NN, T_OPS, A_API if False else "A-API: objects are used through their public API"],
 )
